@@ -651,7 +651,8 @@ func (p RepPeer) Key() string {
 
 type DiffLine struct{ Type, Src, Dst, C1, C2, Info string }
 
-var diffTxtRe = regexp.MustCompile(`^diff-type: (\w+), source: (.*), destination: (.*), ref1: (.*), ref2: (.*?)(?:, workloads-diff-info: (.*))?$`)
+// the two columns are named after the references (ref1/ref2 by default, dir1/dir2 in the CLI)
+var diffTxtRe = regexp.MustCompile(`^diff-type: (\w+), source: (.*), destination: (.*), (?:ref|dir)1: (.*), (?:ref|dir)2: (.*?)(?:, workloads-diff-info: (.*))?$`)
 
 func ParseDiffTxt(out string) ([]DiffLine, error) {
 	var res []DiffLine
@@ -685,7 +686,7 @@ func ParseDiffCSV(out string) ([]DiffLine, error) {
 	if len(rows) == 0 {
 		return nil, nil
 	}
-	if strings.Join(rows[0], "|") != "diff-type|source|destination|ref1|ref2|workloads-diff-info" {
+	if h := strings.Join(rows[0], "|"); h != "diff-type|source|destination|ref1|ref2|workloads-diff-info" && h != "diff-type|source|destination|dir1|dir2|workloads-diff-info" {
 		return nil, fmt.Errorf("diff csv: bad header %v", rows[0])
 	}
 	var res []DiffLine
@@ -700,7 +701,7 @@ func ParseDiffMD(out string) ([]DiffLine, error) {
 	if len(lines) == 1 && lines[0] == "" {
 		return nil, nil
 	}
-	if len(lines) < 2 || lines[0] != "| diff-type | source | destination | ref1 | ref2 | workloads-diff-info |" || !strings.HasPrefix(lines[1], "|---") {
+	if len(lines) < 2 || (lines[0] != "| diff-type | source | destination | ref1 | ref2 | workloads-diff-info |" && lines[0] != "| diff-type | source | destination | dir1 | dir2 | workloads-diff-info |") || !strings.HasPrefix(lines[1], "|---") {
 		return nil, fmt.Errorf("diff md: bad header")
 	}
 	var res []DiffLine
@@ -720,7 +721,7 @@ func ParseDiffMD(out string) ([]DiffLine, error) {
 	return res, nil
 }
 
-var dotChangedRe = regexp.MustCompile(`^(.*) \(ref1: (.*)\)$`)
+var dotChangedRe = regexp.MustCompile(`^(.*) \((?:ref|dir)1: (.*)\)$`)
 
 // DiffFromDot turns a diff digraph into entries (incl. unchanged) and node colours.
 func DiffFromDot(d Dot) ([]DiffLine, map[string]string, error) {
